@@ -103,6 +103,15 @@ def gen(tier, rng):
     for rows in range(1, 4):
         for cols in range(1, 4):
             yield sx([16, 8, rows, cols])
+    # 9. checked access directly on a Matrix with the boundary alphabet (and overflow-prone
+    #    rows such as ceil(2^64 / columns)) in both positions
+    for rows, cols in ((1, 1), (1, 3), (2, 2), (2, 3), (3, 2), (4, 4), (3, 5)):
+        RA = sorted(set(alphabet(rows)) | {2 ** 64 // cols, 2 ** 64 // cols + 1, 2 ** 63 + 1, (2 ** 64 + cols - 1) // cols})
+        RA = [r for r in RA if r <= MAXU]
+        CA = alphabet(cols)
+        probes = [[r, c] for r in RA for c in CA]
+        yield sx([16, 9, rows, cols, probes])
+        yield sx([16, 9, rows, cols, [[r, c] for r in range(rows + 1) for c in range(cols + 1)]])
 
 
 def nontrivial(case, out):
